@@ -10,10 +10,12 @@ threads, the notifying thread (the run) and the display's update thread, in ONE 
     point that returns whether the event is set at that moment (a wait with a finite timeout can always return; it
     returns True exactly when the event is set);  everything else -- the code inside `with self._lock:`, `_do_render`,
     `State`, the notification methods, `__exit__` -- is the unmodified real code;
-  * soundness of the granularity is CHECKED on the source, not assumed: every `self._*` attribute assigned anywhere in the
-    class outside `__init__` must be assigned only inside `with self._lock:` blocks (or in statements that got their own
-    scheduling point and consist of a single attribute store);  a statement outside the lock that both reads and writes
-    shared attributes, or a notification method that touches them outside the lock, is reported as unsupported (exit 3);
+  * the notification methods increment_* get the same treatment (a body that is one `with self._lock:` block stays one atomic
+    step; any statement outside the lock becomes its own step of the notifying thread);
+  * soundness of the granularity is CHECKED on the source, not assumed: a `with self._lock:` block is atomic with respect to
+    every other such block; a statement outside the lock is one step, which is sound when it stores at most one shared
+    attribute and reads none -- a statement outside the lock that both reads and writes shared attributes is reported as
+    unsupported (exit 3);
   * the schedule (who moves next) and the clock readings are symbolic; Lock / Event / Thread / time.time are small stubs.
 
 Property: when __exit__ has returned, the update thread has terminated and the state passed to the last _output() call
@@ -34,6 +36,9 @@ NNOTE = int(os.environ.get("XH_NNOTE", "3"))  # notifications before __exit__
 
 class Unsupported(Exception):
     pass
+
+
+NOTIFY = ("increment_total", "increment_running", "increment_completed", "increment_failed")
 
 
 # ----------------------------------------------------------------------------- source -> schedulable class
@@ -75,10 +80,22 @@ class _WaitRewriter(ast.NodeTransformer):
         return node
 
 
-def _instrument(stmts, shared, notes):
-    """Insert `yield ('stmt', lineno)` before every statement outside the lock; recurse into compound statements."""
+def _instrument(stmts, shared, notes, top=False):
+    """Insert `yield ('stmt', lineno)` before every statement outside the lock; recurse into compound statements.
+    top=True: no scheduling point before the function's first statement (nothing has been touched yet: a point before the
+    call itself is equivalent)."""
     out = []
-    for s in stmts:
+    for k, s in enumerate(stmts):
+        if top and k == 0 and (_is_lock_with(s) or not isinstance(s, (ast.While, ast.If, ast.For, ast.Try, ast.With))):
+            if not _is_lock_with(s):
+                st = set(_self_stores(s)) & shared
+                ld = set(_self_loads(s)) & shared
+                if st and (len(st) > 1 or (ld - st) or isinstance(s, ast.AugAssign)):
+                    raise Unsupported(f"line {s.lineno}: unprotected statement reads and writes shared attributes {sorted(st | ld)}")
+                if st:
+                    notes.append(f"line {s.lineno}: unprotected store to {sorted(st)} (first statement)")
+            out.append(s)
+            continue
         if _is_lock_with(s):
             out.append(ast.copy_location(ast.Expr(ast.Yield(value=ast.Tuple(elts=[ast.Constant("lock"), ast.Constant(s.lineno)], ctx=ast.Load()))), s))
             out.append(s)  # atomic: every other access to the shared attributes holds the same lock (checked below)
@@ -123,11 +140,14 @@ def build_class():
             shared.update(_self_stores(m))
     shared.update({"_state", "_exception_tuples"})
     shared -= {"_thread"}
-    # (1) notification methods: the whole body is one `with self._lock:` (so a notification is one atomic step)
-    for name in ("increment_total", "increment_running", "increment_completed", "increment_failed"):
-        body = [s for s in methods[name].body if not (isinstance(s, ast.Expr) and isinstance(s.value, ast.Constant))]
-        if not (len(body) == 1 and _is_lock_with(body[0])):
-            raise Unsupported(f"{name}: body is not a single `with self._lock:` block")
+    # (1) notification methods: turned into generators as well (a method whose body is one `with self._lock:` block stays one
+    #     atomic step; anything outside the lock gets its own scheduling point)
+    for name in NOTIFY:
+        m = methods[name]
+        body = [s for s in m.body if not (isinstance(s, ast.Expr) and isinstance(s.value, ast.Constant))]
+        m.body = _instrument(body, shared, notes, top=True)
+        if not any(isinstance(x, ast.Yield) for x in ast.walk(m)):
+            m.body.append(ast.Expr(ast.Yield(value=ast.Constant("end"))))  # make it a generator in every case
     # (2) _do_render is only called with the lock held
     for name, m in methods.items():
         for n in ast.walk(m):
@@ -141,7 +161,7 @@ def build_class():
     wr.visit(upd)
     if wr.count != 1:
         raise Unsupported(f"_run_update_thread: expected exactly one _done_event.wait(), found {wr.count}")
-    upd.body = _instrument(upd.body, shared, notes)
+    upd.body = _instrument(upd.body, shared, notes, top=True)
     ast.fix_missing_locations(tree)
     mod = types.ModuleType("spo_sched")
     mod.__dict__["__name__"] = "uberjob.progress._simple_progress_observer_sched"
@@ -230,7 +250,7 @@ def mk_observer(clock):
 
 
 def c20_final_render(s0: bool, s1: bool, s2: bool, s3: bool, s4: bool, s5: bool, s6: bool, s7: bool, s8: bool, s9: bool, s10: bool, s11: bool,
-                     c0: int, c1: int, c2: int, c3: int, c4: int, c5: int, c6: int, c7: int) -> bool:
+                     s12: bool, s13: bool, c0: int, c1: int, c2: int, c3: int, c4: int, c5: int, c6: int, c7: int) -> bool:
     """
     pre: 0 <= c0 <= c1 <= c2 <= c3 <= c4 <= c5 <= c6 <= c7
     post: _
@@ -239,7 +259,7 @@ def c20_final_render(s0: bool, s1: bool, s2: bool, s3: bool, s4: bool, s5: bool,
     clock = Clock([0, c0, c1, c2, c3, c4, c5, c6, c7])
     obs = mk_observer(clock)
     gen = obs._run_update_thread()
-    sched = [s0, s1, s2, s3, s4, s5, s6, s7, s8, s9, s10, s11]
+    sched = [s0, s1, s2, s3, s4, s5, s6, s7, s8, s9, s10, s11, s12, s13]
     state = {"pending": None, "done": False, "steps": 0}
 
     def upd_step():
@@ -267,24 +287,38 @@ def c20_final_render(s0: bool, s1: bool, s2: bool, s3: bool, s4: bool, s5: bool,
     obs._thread = ThreadStub(drive_to_end)
     notes = [("total", 2), ("running", 0), ("completed", 0), ("running", 0), ("failed", 0)][:NNOTE]
     scope = ("s",)
-    i = 0  # next notification
+    cur = {"gen": None, "i": 0}
+
+    def start(kind, amount):
+        if kind == "total":
+            return obs.increment_total(section="run", scope=scope, amount=amount)
+        if kind == "running":
+            return obs.increment_running(section="run", scope=scope)
+        if kind == "completed":
+            return obs.increment_completed(section="run", scope=scope)
+        return obs.increment_failed(section="run", scope=scope, exception=ValueError("x"))
+
+    def note_step():
+        """One step of the notifying thread: run the current notification to its next scheduling point."""
+        if cur["gen"] is None:
+            cur["gen"] = start(*notes[cur["i"]])
+        try:
+            while True:
+                p = next(cur["gen"])
+                if p != "end":
+                    return
+        except StopIteration:
+            cur["gen"] = None
+            cur["i"] += 1
+
     k = 0
-    while i < len(notes):
+    while cur["i"] < len(notes):
         move_updater = sched[k] if k < len(sched) else False
         k += 1
         if move_updater and not state["done"]:
             upd_step()
             continue
-        kind = notes[i][0]
-        if kind == "total":
-            obs.increment_total(section="run", scope=scope, amount=notes[i][1])
-        elif kind == "running":
-            obs.increment_running(section="run", scope=scope)
-        elif kind == "completed":
-            obs.increment_completed(section="run", scope=scope)
-        else:
-            obs.increment_failed(section="run", scope=scope, exception=ValueError("x"))
-        i += 1
+        note_step()
     # a few more updater steps may interleave before __exit__
     while k < len(sched) and sched[k]:
         k += 1
